@@ -110,6 +110,7 @@ impl Prop for C06 {
         "cases = building() with 0-5 auxiliary-bearing systems (single EPB service; multi-service with SALIDA lines for 1-4 EPB services, positive and negative outputs, steps with zero output, several AUX and SALIDA lines per system), electricity otherwise present, scarce or absent; \
          oracle = model of the split computed from the declared lines: per system and step the shares add up to the declared auxiliary energy, no share negative, every share on an EPB service, single-service systems get all of it, \
          multi-service systems share it by |summed output| of each service (where all outputs are zero only conservation and sign are required), and the electricity balance's EPB use per step and per service equals declared CONSUMO + the split; \
+         one case in sixteen zeroes every output of a multi-service system: the file is then either refused or the auxiliary energy is still conserved; \
          non-trivial = >= 2 systems with auxiliaries, one of them multi-service, and a step with mixed-sign or zero output"
             .into()
     }
@@ -130,14 +131,47 @@ impl Prop for C06 {
         let mut scarce = p.clone();
         scarce.regime_pct = 0;
         scarce.carriers = crate::dom::ALL_CARS.iter().cloned().filter(|c| *c != Car::ELECTRICIDAD).collect();
-        prop_oneof![3 => building(&p), 2 => building(&scarce)].boxed()
+        (prop_oneof![3 => building(&p), 2 => building(&scarce)], 0u8..16)
+            .prop_map(|(mut b, k)| {
+                // one case in sixteen: the outputs of the first multi-service auxiliary-bearing system are
+                // all zero (nothing to share the auxiliaries by): the file must be refused, not accepted
+                // with the energy dropped
+                if k == 0 {
+                    let m = aux_model(&b);
+                    if let Some(id) = m.multi.iter().next().cloned() {
+                        for l in b.lines.iter_mut().filter(|l| l.id == id && matches!(l.kind, Kind::Out { .. })) {
+                            for v in &mut l.vals {
+                                *v = 0.0;
+                            }
+                        }
+                        b.tags.push("unassignable".into());
+                    }
+                }
+                b
+            })
+            .boxed()
     }
     fn describe(b: &Building) -> Value {
         serde_json::json!({"components": b.render(), "tags": b.tags})
     }
     fn check(b: &Building, ctx: &mut Ctx) -> CheckResult {
         let n = b.n;
-        let comps = parse_sound(b)?;
+        let comps = if b.tags.iter().any(|t| t == "unassignable") {
+            match catch(|| b.render().parse::<cteepbd::Components>()) {
+                Err(p) => fail!("panic", "parsing panicked: {}", p),
+                Ok(Err(_)) => {
+                    ctx.label("unassignable_rejected");
+                    return Ok(());
+                }
+                // accepted (e.g. the system's auxiliaries are all zero): everything below still applies
+                Ok(Ok(c)) => {
+                    ctx.label("unassignable_accepted");
+                    c
+                }
+            }
+        } else {
+            parse_sound(b)?
+        };
         let m = aux_model(b);
         // parsed auxiliaries per (system, service)
         let mut got: BTreeMap<(i32, Srv), Vec<f64>> = BTreeMap::new();
